@@ -268,8 +268,11 @@ PROPS["C13"] = {
 }
 
 PROPS["C16"] = {
-    "files": ["p2p/conn/secret_connection.go"],
+    "files": ["p2p/conn/secret_connection.go", "p2p/transport.go"],
     "groups": [
+        {"dir": "p2p",
+         "quick": ["VP_C16_Upgrade"],
+         "thorough": []},
         {"dir": "p2p/conn",
          "quick": ["VP_C16_IncrNonce", "VP_C16_Frames_w1_d2", "VP_C16_Frames_w2_d2", "VP_C16_KeccakMatchesNative", "VP_C16_HandshakeHonest", "VP_C16_HandshakeMITM"],
          "thorough": ["VP_C16_Frames_w2_d3", "VP_C16_Frames_w3_d3"]},
@@ -277,11 +280,12 @@ PROPS["C16"] = {
     "bounds": {
         "frame layer (H1)": "the real SecretConnection.Write and Read on two connection structs sharing a key, linked by an adversarial pipe: up to 2 (thorough 3) writes of arbitrary bytes of length in {1,1023,1024,1025,2049}, any one link write may fail; then up to 2 (thorough 3) deliveries of any stored frame (in order, out of order, replayed, skipped), untouched / one byte at offset {0,3,4,500,len-17,len-1} xor an arbitrary non-zero mask / last byte cut; read buffers of {1,7,1024,4096} bytes; a wrapper around the sending AEAD records every nonce",
         "nonce counter": "incrNonce on an arbitrary 12-byte nonce (all 2^96 values, decided per byte pattern by the solver)",
+        "transport upgrade (H3)": "the real MultiplexTransport.upgrade (secret connection, NodeInfo exchange, validation) against a remote party that proves key X: incoming or outgoing, dialed id X or Y, NodeInfo claiming id X or Y; admitted only as X and only if X was dialed",
         "handshake (H2)": "the real MakeSecretConnection run by the honest parties as goroutines over in-memory links: two honest parties (authenticate each other's key, 5 arbitrary bytes travel); and party B against a man in the middle who completes the ephemeral exchange with its own key and then (0) presents its own identity, (1) relays A's key and A's signature obtained on a parallel leg with A, (2) replays A's signature from another session, (3) A's key with its own signature, (4) A's key with 64 arbitrary signature bytes, (5) presents each of the 7 low-order points as ephemeral key, (6) reflects B's own messages: B may accept only in case 0",
     },
     "stubs": ["chacha20poly1305 Seal/Open idealised: Open succeeds only on exactly a ciphertext Seal produced under the same key, nonce and additional data (the AEAD's INT-CTXT assumption); natively the real cipher runs",
               "X25519 and ephemeral key generation computed by crypto/ecdh on concrete bytes (deterministic ephemeral keys); keccak-f of the merlin transcript by the engine's own implementation, checked against the native value by VP_C16_KeccakMatchesNative; HKDF/HMAC/SHA-256 and ed25519 real on concrete bytes; ed25519 verification of symbolic signature bytes by the ideal-signature oracle"],
-    "outside": ["p2p/transport.go upgrade (node id versus authenticated key)", "adversaries other than the seven scripted strategies; an adversary that adapts to a changed protocol", "frames longer than 3 per write, more than 3 writes"],
+    "outside": ["adversaries other than the seven scripted strategies; an adversary that adapts to a changed protocol", "frames longer than 3 per write, more than 3 writes"],
     "timeout_quick": 300, "timeout_thorough": 900,
 }
 
